@@ -303,10 +303,10 @@ def main():
     merge_findings(F, f)
     for k, v in st.items():
         tot["vitro." + k] = v
-    if tot.get("asan.vivo_real", 0) == 0 or tot.get("vitro.vitro_ds", 0) == 0:
+    if (tot.get("asan.vivo_real", 0) == 0 or tot.get("vitro.vitro_ds", 0) == 0) and F.n_unlisted() == 0:
         raise Harness("monitor observed too little: %s" % tot)
     inconc = sum(v for k, v in tot.items() if k.endswith("inconclusive"))
-    if inconc > (len(vivo) + len(vitro)) // 100:
+    if (inconc > (len(vivo) + len(vitro)) // 100) and F.n_unlisted() == 0:
         raise Harness("too many inconclusive cases: %d" % inconc)
     rc = F.report()
     write_evidence(PROP, "exploration", tr, dict(
